@@ -63,6 +63,10 @@ CHECKS["C09"]=dict(level="exploration", ref="§C09",
    technique="finite product enumeration of write times (every T of the frame, all pairs inside a line) on the real Emulator against a beam-position model of the border buffer",
    text="An OUT to port FE executed by the emulated CPU at every T of the frame in thorough (five complete lines and both frame ends in quick), every ordered pair of OUTs inside one line at three line positions, writes straddling the frame wrap, write-free frames and snapshot borders of all 8 colours on both machines; every border pixel of the completed 320x240 buffer farther than 8 T from the I/O cycle of a write must show the colour last written before the beam reached it, and border_color() must report the last write.",
    note="Exploration level: sequences of more than two writes per frame are not enumerated. Frame clock placed through the hook.")
+CHECKS["C19"]=dict(level="exploration", ref="§C19",
+   technique="finite product enumeration of sample rates x machines x toggle times (every T of the frame) x volumes, and all 2^6 drain schedules",
+   text="For ten sample rates from 8000 to 384000 Hz on both machines a speaker toggle is executed by the emulated CPU at every T of the frame in thorough (three 256-T windows in quick): the drained frame must hold floor(rate/50) samples (by emulated time), every sample outside the one-sample edge window must equal the level set before/after the write, the edge must land within one sample of the OUT, all samples finite and bounded by the volume; MIC bit, volumes 0/1/200 and double toggles on sparser time sets; all 64 drain/no-drain patterns over six frames x rates x machines x AY on/off keep the queue below two frames' worth.",
+   note="Exploration level: one or two toggles per frame, not arbitrary programs. Beeper-only configuration for the edge test. Frame clock placed through the hook.")
 NOT_YET = {
 }
 def main():
